@@ -23,18 +23,20 @@ CONSTANTS PIDS,        \* explicit PIDs callers use
           LENS,        \* payload lengths offered to WriteData
           HDRS,        \* PES header classes offered
           AFS,         \* adaptation-field classes offered
-          PKTS         \* WritePacket kinds offered
+          PKTS,        \* WritePacket kinds offered
+          BIGS         \* subset of BOOLEAN: whether streams with a descriptor too large for a one-packet PMT are offered
 VARIABLES streams,     \* sequence of PIDs in insertion order
           escc,        \* pid -> 0..16 (16 = never used)
           patCC, pmtCC, patVer, pmtVer, pmDirty, pmtDirty, pcr, nextPid, rtx,
           nauto,       \* number of automatic assignments so far
+          bigs,        \* PIDs added with a descriptor that makes the PMT too large for one packet
           out,         \* abstract packets handed to the writer by the last call
           ret,         \* [n, err] returned by the last call
           partial,     \* bytes handed to the writer outside whole packets by the last call
           nops,
           \* ghost
           lastOut, seenTables, seenPES, changedSince, lastPmtVerOut, sinceAuto, hist
-vars == <<streams, escc, patCC, pmtCC, patVer, pmtVer, pmDirty, pmtDirty, pcr, nextPid, rtx, nauto,
+vars == <<streams, escc, patCC, pmtCC, patVer, pmtVer, pmDirty, pmtDirty, pcr, nextPid, rtx, nauto, bigs,
           out, ret, partial, nops, lastOut, seenTables, seenPES, changedSince, lastPmtVerOut, sinceAuto, hist>>
 
 PATPID == 0
@@ -56,7 +58,7 @@ Init ==
   /\ patCC = 16 /\ pmtCC = 16 /\ patVer = 32 /\ pmtVer = 32
   /\ pmDirty = TRUE /\ pmtDirty = FALSE /\ pcr = 0
   /\ nextPid = IF HasDev("AutoPidFromZero") THEN 0 ELSE StartPID
-  /\ rtx = Period /\ nauto = 0
+  /\ rtx = Period /\ nauto = 0 /\ bigs = {}
   /\ out = <<>> /\ ret = [n |-> 0, err |-> "nil"] /\ partial = 0 /\ nops = 0
   /\ lastOut = [p \in {} |-> 0] /\ seenTables = FALSE /\ seenPES = FALSE /\ changedSince = FALSE
   /\ lastPmtVerOut = 99 /\ sinceAuto = 0 /\ hist = <<>>
@@ -85,14 +87,14 @@ FreePid(from) == CHOOSE q \in from..(from + Len(streams) + 2) :
                    /\ q \notin SeqToSet(streams) /\ q # PMTPID
                    /\ \A r \in from..(q-1) : r \in SeqToSet(streams) \/ r = PMTPID
 
-Add(p) ==
+Add(p, big) ==
   /\ nops < MaxOps /\ nops' = nops + 1
   /\ LET auto == (p = 0)
          np == IF auto THEN (IF HasDev("AutoPidFromZero") THEN nextPid ELSE FreePid(nextPid)) ELSE p
          dup == (~auto) /\ np \in SeqToSet(streams)
-         op == [op |-> "add", pid |-> p, st |-> 27, dk |-> "none"]
+         op == [op |-> "add", pid |-> p, st |-> 27, dk |-> IF big THEN "ud170" ELSE "none"]
      IN IF dup
-        THEN /\ UNCHANGED <<streams, escc, pmtDirty, nextPid, changedSince, nauto>>
+        THEN /\ UNCHANGED <<streams, escc, pmtDirty, nextPid, changedSince, nauto, bigs>>
              /\ Quiet(op, "pidexists")
         ELSE /\ streams' = Append(streams, np)
              /\ escc' = [q \in DOMAIN escc \cup {np} |->      \* a PID added again resumes its counter
@@ -100,6 +102,7 @@ Add(p) ==
              /\ pmtDirty' = TRUE
              /\ nextPid' = IF auto THEN np + 1 ELSE nextPid
              /\ nauto' = IF auto THEN nauto + 1 ELSE nauto
+             /\ bigs' = IF big THEN bigs \cup {np} ELSE bigs \ {np}
              /\ changedSince' = TRUE
              /\ Quiet(op, "nil")
   /\ UNCHANGED <<patCC, pmtCC, patVer, pmtVer, pmDirty, pcr, rtx, sinceAuto>>
@@ -110,12 +113,13 @@ Remove(p) ==
      IF p \in SeqToSet(streams)
      THEN /\ streams' = SelectSeq(streams, LAMBDA q : q # p)
           /\ UNCHANGED escc                                    \* the counter of a removed stream is remembered
+          /\ bigs' = bigs \ {p}
           /\ pmtDirty' = TRUE /\ changedSince' = TRUE
           /\ out' = <<>> /\ ret' = [n |-> 0, err |-> "nil"] /\ partial' = 0
           /\ hist' = Append(hist, op @@ [pred |-> Pred(<<>>, 0, "nil", 0)])
           /\ lastOut' = lastOut
           /\ UNCHANGED <<seenTables, seenPES, lastPmtVerOut>>
-     ELSE /\ UNCHANGED <<streams, escc, pmtDirty, changedSince>>
+     ELSE /\ UNCHANGED <<streams, escc, pmtDirty, changedSince, bigs>>
           /\ Quiet(op, "pidnotfound")
   /\ UNCHANGED <<patCC, pmtCC, patVer, pmtVer, pmDirty, pcr, nextPid, rtx, nauto, sinceAuto>>
 
@@ -123,22 +127,25 @@ SetPCR(p) ==
   /\ nops < MaxOps /\ nops' = nops + 1
   /\ pcr' = p /\ pmtDirty' = TRUE /\ changedSince' = TRUE
   /\ Quiet([op |-> "setpcr", pid |-> p], "nil")
-  /\ UNCHANGED <<streams, escc, patCC, pmtCC, patVer, pmtVer, pmDirty, nextPid, rtx, nauto, sinceAuto>>
+  /\ UNCHANGED <<streams, escc, patCC, pmtCC, patVer, pmtVer, pmDirty, nextPid, rtx, nauto, sinceAuto, bigs>>
 
 \* ---- tables: generatePAT ; generatePMT ; two Writes
 PCROk == pcr \in SeqToSet(streams)
+PMTFits == bigs \cap SeqToSet(streams) = {}
 Tables ==
   LET patVer1 == IF pmDirty THEN Inc(patVer, 31) ELSE patVer
       patCC1 == Inc(patCC, 15)
       pmtVer1 == IF pmtDirty THEN Inc(pmtVer, 31) ELSE pmtVer
       pmtCC1 == Inc(pmtCC, 15)
-  IN IF PCROk
-     THEN [ok |-> TRUE, patVer |-> patVer1, patCC |-> patCC1, pmtVer |-> pmtVer1, pmtCC |-> pmtCC1, pmDirty |-> FALSE, pmtDirty |-> FALSE,
+  IN IF PCROk /\ PMTFits
+     THEN [ok |-> TRUE, err |-> "nil", patVer |-> patVer1, patCC |-> patCC1, pmtVer |-> pmtVer1, pmtCC |-> pmtCC1, pmDirty |-> FALSE, pmtDirty |-> FALSE,
            pkts |-> << [pid |-> PATPID, cc |-> patCC1, pl |-> TRUE, pusi |-> TRUE, af |-> 0, n |-> 184, kind |-> "pat", ver |-> patVer1],
                        [pid |-> PMTPID, cc |-> pmtCC1, pl |-> TRUE, pusi |-> TRUE, af |-> 0, n |-> 184, kind |-> "pmt", ver |-> pmtVer1] >>]
-     ELSE IF HasDev("PATccBurnOnFailedPMT")
-          THEN [ok |-> FALSE, patVer |-> patVer1, patCC |-> patCC1, pmtVer |-> pmtVer, pmtCC |-> pmtCC, pmDirty |-> FALSE, pmtDirty |-> pmtDirty, pkts |-> <<>>]
-          ELSE [ok |-> FALSE, patVer |-> patVer, patCC |-> patCC, pmtVer |-> pmtVer, pmtCC |-> pmtCC, pmDirty |-> pmDirty, pmtDirty |-> pmtDirty, pkts |-> <<>>]
+     ELSE LET e == IF PCROk THEN "other" ELSE "pcrinvalid" IN        \* invalid PCR PID is detected first; else the PMT does not fit one packet
+          IF HasDev("PATccBurnOnFailedPMT")
+          THEN [ok |-> FALSE, err |-> e, patVer |-> patVer1, patCC |-> patCC1, pmDirty |-> FALSE, pmtDirty |-> pmtDirty, pkts |-> <<>>,
+                pmtVer |-> IF PCROk THEN pmtVer1 ELSE pmtVer, pmtCC |-> IF PCROk THEN pmtCC1 ELSE pmtCC]   \* historical: an oversized PMT also burnt PMT cc / version
+          ELSE [ok |-> FALSE, err |-> e, patVer |-> patVer, patCC |-> patCC, pmtVer |-> pmtVer, pmtCC |-> pmtCC, pmDirty |-> pmDirty, pmtDirty |-> pmtDirty, pkts |-> <<>>]
 
 ApplyTables(t) ==
   /\ patVer' = t.patVer /\ patCC' = t.patCC /\ pmtVer' = t.pmtVer /\ pmtCC' = t.pmtCC
@@ -148,9 +155,9 @@ WriteTables ==
   /\ nops < MaxOps /\ nops' = nops + 1
   /\ LET t == Tables IN
        /\ ApplyTables(t)
-       /\ Emit([op |-> "tables"], t.pkts, 188 * Len(t.pkts), IF t.ok THEN "nil" ELSE "pcrinvalid", 0)
+       /\ Emit([op |-> "tables"], t.pkts, 188 * Len(t.pkts), t.err, 0)
        /\ changedSince' = IF t.ok THEN FALSE ELSE changedSince
-  /\ UNCHANGED <<streams, escc, pcr, nextPid, rtx, nauto, sinceAuto>>
+  /\ UNCHANGED <<streams, escc, pcr, nextPid, rtx, nauto, sinceAuto, bigs>>
 
 \* ---- the packetisation loop of WriteData (muxer.go), as arithmetic.
 \* Returns the abstract PES packets for a payload of len bytes with header class h and AF class a,
@@ -184,15 +191,15 @@ WriteData(p, len, h, a) ==
   /\ LET op == [op |-> "data", pid |-> p, len |-> len, hdr |-> h, af |-> a] IN
      IF p \notin SeqToSet(streams)
      THEN /\ Quiet(op, "pidnotfound")
-          /\ UNCHANGED <<streams, escc, patCC, pmtCC, patVer, pmtVer, pmDirty, pmtDirty, pcr, nextPid, rtx, nauto, changedSince, sinceAuto>>
+          /\ UNCHANGED <<streams, escc, patCC, pmtCC, patVer, pmtVer, pmDirty, pmtDirty, pcr, nextPid, rtx, nauto, changedSince, sinceAuto, bigs>>
      ELSE LET force == AFRai(a) /\ p = pcr
               rtx1 == rtx + 1
               doT == force \/ rtx1 >= Period
               t == Tables
           IN IF doT /\ ~t.ok
              THEN /\ ApplyTables(t) /\ rtx' = rtx1
-                  /\ Emit(op, <<>>, 0, "pcrinvalid", 0)
-                  /\ UNCHANGED <<streams, escc, pcr, nextPid, nauto, changedSince, sinceAuto>>
+                  /\ Emit(op, <<>>, 0, t.err, 0)
+                  /\ UNCHANGED <<streams, escc, pcr, nextPid, nauto, changedSince, sinceAuto, bigs>>
              ELSE LET tp == IF doT THEN t.pkts ELSE <<>>
                       pes == PesPkts(p, escc[p], len, h, a)
                       all == tp \o pes
@@ -202,7 +209,7 @@ WriteData(p, len, h, a) ==
                      /\ changedSince' = IF doT THEN FALSE ELSE changedSince
                      /\ escc' = [escc EXCEPT ![p] = pes[Len(pes)].cc]
                      /\ Emit(op, all, 188 * Len(all), "nil", 0)
-                     /\ UNCHANGED <<streams, pcr, nextPid, nauto>>
+                     /\ UNCHANGED <<streams, pcr, nextPid, nauto, bigs>>
 
 \* ---- WritePacket with a caller-built packet (PID 0x1ffe / null; outside the cc bookkeeping)
 WritePacket(k) ==
@@ -214,10 +221,10 @@ WritePacket(k) ==
         THEN Emit(op, <<>>, 0, "other", IF HasDev("HeaderBeforeFitCheck") THEN hdrBytes ELSE 0)
         ELSE Emit(op, <<[pid |-> (IF k = "null" THEN 8191 ELSE 8190), cc |-> 0, pl |-> (k # "pcr"), pusi |-> FALSE, af |-> (IF k = "pcr" THEN 184 ELSE 0),
                          n |-> (IF k = "pcr" THEN 0 ELSE 184), kind |-> "user", ver |-> 0]>>, 188, "nil", 0)
-  /\ UNCHANGED <<streams, escc, patCC, pmtCC, patVer, pmtVer, pmDirty, pmtDirty, pcr, nextPid, rtx, nauto, changedSince, sinceAuto>>
+  /\ UNCHANGED <<streams, escc, patCC, pmtCC, patVer, pmtVer, pmDirty, pmtDirty, pcr, nextPid, rtx, nauto, changedSince, sinceAuto, bigs>>
 
 Next ==
-  \/ \E p \in PIDS \cup {0} : Add(p)
+  \/ \E p \in PIDS \cup {0}, big \in BIGS : Add(p, big)
   \/ \E p \in PIDS : Remove(p)
   \/ \E p \in PIDS \cup {999} : SetPCR(p)
   \/ WriteTables
@@ -255,7 +262,7 @@ C17_AutoPid == \A i \in DOMAIN streams :
                   /\ streams[i] \in PIDS \/ (streams[i] >= 32 /\ streams[i] # 8191 /\ streams[i] # PMTPID)
                   /\ \A j \in DOMAIN streams : i # j => streams[i] # streams[j]
 \* one emitted abstract state per reachable state; hist/out are observations
-View == <<streams, escc, patCC, pmtCC, patVer, pmtVer, pmDirty, pmtDirty, pcr, nextPid, rtx, nauto, nops,
+View == <<streams, escc, patCC, pmtCC, patVer, pmtVer, pmDirty, pmtDirty, pcr, nextPid, rtx, nauto, bigs, nops,
           lastOut, seenTables, seenPES, changedSince, lastPmtVerOut, sinceAuto, partial, ret>>
 \* scenario export: one behaviour per explored transition (ACTION_CONSTRAINT)
 ExportEdge == PrintT("SCN " \o ToJson([period |-> Period, ops |-> hist']))
